@@ -336,7 +336,12 @@ func c19run(t *testing.T, ops []string, o *Out) {
 	}
 	var pending []byte
 	pendingErr := false
+	// a clock advance that is directly followed by a read is spent INSIDE the wrapped reader (a blocking
+	// transport: the caller entered Read earlier, the packet arrives later): the arrival time is when Read returns
+	waitNs := int64(0)
 	inner := func(b []byte, _ interceptor.Attributes) (int, interceptor.Attributes, error) {
+		now += waitNs
+		waitNs = 0
 		if pendingErr {
 			return 0, nil, errC19Read
 		}
@@ -368,6 +373,10 @@ func c19run(t *testing.T, ops []string, o *Out) {
 
 	for _, op := range ops {
 		name, m := kv(op)
+		if name != "adv" && !strings.HasPrefix(name, "rtpIn") && !strings.HasPrefix(name, "rtcpIn") {
+			now += waitNs
+			waitNs = 0
+		}
 		switch name {
 		case "bindL", "bindR":
 			ssrc, ok1 := c19u(m["ssrc"], 32)
@@ -470,7 +479,7 @@ func c19run(t *testing.T, ops []string, o *Out) {
 				o.P("bad-op")
 				continue
 			}
-			now += d
+			waitNs += d
 		case "get":
 			ssrc, ok := c19u(m["ssrc"], 32)
 			if !ok {
